@@ -21,42 +21,57 @@ theorem sphereOut_spec {E : Env K} (hE : E.Exact) (center c : V3 K) (r : K) :
       c.sub center = (sphereOut E center r c).n.scale ρ ∧
       c.sqDist (sphereOut E center r c).p = (sphereOut E center r c).val * (sphereOut E center r c).val := by
   have h0 := V3.sqDist_nonneg c center
-  refine ⟨E.sqrt (c.sqDist center), hE.sqrt_nonneg _ h0, hE.sqrt_sq _ h0, rfl, ?_⟩
-  unfold sphereOut
-  have hnorm : (c.sub center).norm E = E.sqrt (c.sqDist center) := rfl
-  simp only [hnorm]
+  have hsq : (c.sub center).norm E * (c.sub center).norm E = c.sqDist center := hE.sqrt_sq _ h0
+  refine ⟨(c.sub center).norm E, hE.sqrt_nonneg _ h0, hsq, rfl, ?_⟩
+  have hexp : c.sqDist center = (c.x - center.x) * (c.x - center.x) + (c.y - center.y) * (c.y - center.y) + (c.z - center.z) * (c.z - center.z) := rfl
   by_cases hz : c.sqDist center = 0
-  · have hs : E.sqrt (c.sqDist center) = 0 := by rw [hz]; exact hE.sqrt_zero
-    have hiz : isZero (E.sqrt (c.sqDist center)) = true := (isZero_iff _).mpr hs
+  · have hs : (c.sub center).norm E = 0 := by
+      show E.sqrt (c.sqDist center) = 0
+      rw [hz]; exact hE.sqrt_zero
+    have hiz : isZero ((c.sub center).norm E) = true := (isZero_iff _).mpr hs
+    have ho : sphereOut E center r c = ⟨r, ⟨1, 0, 0⟩, center.add ⟨r, 0, 0⟩⟩ := by
+      unfold sphereOut; rw [if_pos hiz]
     obtain ⟨e1, e2, e3⟩ := V3.normSq_eq_zero (a := c.sub center) hz
     simp only [V3.sub] at e1 e2 e3
-    simp only [hiz, if_true]
-    rw [hs]
-    refine ⟨by ring, by simp [V3.normSq], by ext <;> simp [V3.add, V3.scale], by ext <;> simp [V3.sub, V3.scale, e1, e2, e3], ?_⟩
+    rw [ho, hs]
+    refine ⟨by ring, by simp [V3.normSq], by ext <;> simp [V3.add, V3.scale],
+      by ext <;> simp [V3.sub, V3.scale, e1, e2, e3], ?_⟩
     simp only [V3.sqDist, V3.add]
-    have : c.x = center.x := by linarith
-    have : c.y = center.y := by linarith
-    have : c.z = center.z := by linarith
-    subst_vars
-    simp_all
-    ring
+    have hx : c.x = center.x := by linarith
+    have hy : c.y = center.y := by linarith
+    have hz' : c.z = center.z := by linarith
+    rw [hx, hy, hz']; ring
   · have hpos : 0 < c.sqDist center := lt_of_le_of_ne h0 (Ne.symm hz)
     obtain ⟨hn, hu, hun, huu⟩ := inv_norm_facts hE hpos
-    have hiz : isZero (E.sqrt (c.sqDist center)) = false := (isZero_false_iff _).mpr hn.ne'
-    simp only [hiz, Bool.false_eq_true, if_false, sphereSDF, V3.dist]
-    have hsq := hE.sqrt_sq _ h0
-    generalize E.sqrt (c.sqDist center) = ρ at *
-    have hρ : ρ ≠ 0 := hn.ne'
-    have hexp : c.sqDist center = (c.x - center.x) * (c.x - center.x) + (c.y - center.y) * (c.y - center.y) + (c.z - center.z) * (c.z - center.z) := rfl
+    change 0 < (c.sub center).norm E at hn
+    change 1 / (c.sub center).norm E * (c.sub center).norm E = 1 at hun
+    change 1 / (c.sub center).norm E * (1 / (c.sub center).norm E) * c.sqDist center = 1 at huu
+    have hiz : ¬ (isZero ((c.sub center).norm E) = true) := by
+      rw [Bool.not_eq_true]; exact (isZero_false_iff _).mpr hn.ne'
+    have ho : sphereOut E center r c = ⟨sphereSDF E center r c, (c.sub center).scale (1 / (c.sub center).norm E),
+        center.add ((c.sub center).scale (r / (c.sub center).norm E))⟩ := by
+      unfold sphereOut; rw [if_neg hiz]
+    have hval : sphereSDF E center r c = r - (c.sub center).norm E := rfl
+    rw [ho, hval]
+    generalize (c.sub center).norm E = ρ at *
+    have hdiv : r / ρ = r * (1 / ρ) := by ring
+    rw [hdiv]
+    generalize 1 / ρ = u at *
+    rw [hexp] at huu hsq
     refine ⟨rfl, ?_, ?_, ?_, ?_⟩
     · simp only [V3.normSq, V3.scale, V3.sub]
-      rw [hexp] at huu; linear_combination huu
-    · ext <;> simp only [V3.add, V3.scale, V3.sub] <;> field_simp
-    · ext <;> simp only [V3.scale, V3.sub] <;> field_simp
+      linear_combination huu
+    · ext <;> simp only [V3.add, V3.scale, V3.sub] <;> ring
+    · ext <;> simp only [V3.scale, V3.sub] <;>
+        first
+        | linear_combination (-(c.x - center.x)) * hun
+        | linear_combination (-(c.y - center.y)) * hun
+        | linear_combination (-(c.z - center.z)) * hun
     · simp only [V3.sqDist, V3.add, V3.scale, V3.sub]
-      rw [hexp] at hsq
-      field_simp
-      linear_combination (ρ - r) * (ρ - r) * hsq
+      have key : (1 - r * u) * ρ = ρ - r := by linear_combination (-r) * hun
+      have : ((c.x - center.x) * (c.x - center.x) + (c.y - center.y) * (c.y - center.y) + (c.z - center.z) * (c.z - center.z)) * ((1 - r * u) * (1 - r * u)) = (r - ρ) * (r - ρ) := by
+        rw [← hsq]; linear_combination (ρ - r + (1 - r * u) * ρ) * key
+      linear_combination this
 
 theorem circleOut_spec {E : Env K} (hE : E.Exact) (center c : V2 K) (r : K) :
     ∃ ρ, 0 ≤ ρ ∧ ρ * ρ = c.sqDist center ∧ circleSDF E center r c = r - ρ ∧
@@ -65,40 +80,153 @@ theorem circleOut_spec {E : Env K} (hE : E.Exact) (center c : V2 K) (r : K) :
       c.sub center = (circleOut E center r c).n.scale ρ ∧
       c.sqDist (circleOut E center r c).p = (circleOut E center r c).val * (circleOut E center r c).val := by
   have h0 := V2.sqDist_nonneg c center
-  refine ⟨E.sqrt (c.sqDist center), hE.sqrt_nonneg _ h0, hE.sqrt_sq _ h0, rfl, ?_⟩
-  unfold circleOut
-  have hnorm : (c.sub center).norm E = E.sqrt (c.sqDist center) := rfl
-  simp only [hnorm]
+  have hsq : (c.sub center).norm E * (c.sub center).norm E = c.sqDist center := hE.sqrt_sq _ h0
+  refine ⟨(c.sub center).norm E, hE.sqrt_nonneg _ h0, hsq, rfl, ?_⟩
+  have hexp : c.sqDist center = (c.x - center.x) * (c.x - center.x) + (c.y - center.y) * (c.y - center.y) := rfl
   by_cases hz : c.sqDist center = 0
-  · have hs : E.sqrt (c.sqDist center) = 0 := by rw [hz]; exact hE.sqrt_zero
-    have hiz : isZero (E.sqrt (c.sqDist center)) = true := (isZero_iff _).mpr hs
+  · have hs : (c.sub center).norm E = 0 := by
+      show E.sqrt (c.sqDist center) = 0
+      rw [hz]; exact hE.sqrt_zero
+    have hiz : isZero ((c.sub center).norm E) = true := (isZero_iff _).mpr hs
+    have ho : circleOut E center r c = ⟨r, ⟨1, 0⟩, center.add ⟨r, 0⟩⟩ := by
+      unfold circleOut; rw [if_pos hiz]
     obtain ⟨e1, e2⟩ := V2.normSq_eq_zero (a := c.sub center) hz
     simp only [V2.sub] at e1 e2
-    simp only [hiz, if_true]
-    rw [hs]
-    refine ⟨by ring, by simp [V2.normSq], by ext <;> simp [V2.add, V2.scale], by ext <;> simp [V2.sub, V2.scale, e1, e2], ?_⟩
+    rw [ho, hs]
+    refine ⟨by ring, by simp [V2.normSq], by ext <;> simp [V2.add, V2.scale],
+      by ext <;> simp [V2.sub, V2.scale, e1, e2], ?_⟩
     simp only [V2.sqDist, V2.add]
-    have : c.x = center.x := by linarith
-    have : c.y = center.y := by linarith
-    subst_vars
-    simp_all
-    ring
+    have hx : c.x = center.x := by linarith
+    have hy : c.y = center.y := by linarith
+    rw [hx, hy]; ring
   · have hpos : 0 < c.sqDist center := lt_of_le_of_ne h0 (Ne.symm hz)
     obtain ⟨hn, hu, hun, huu⟩ := inv_norm_facts hE hpos
-    have hiz : isZero (E.sqrt (c.sqDist center)) = false := (isZero_false_iff _).mpr hn.ne'
-    simp only [hiz, Bool.false_eq_true, if_false, circleSDF, V2.dist]
-    have hsq := hE.sqrt_sq _ h0
-    generalize E.sqrt (c.sqDist center) = ρ at *
-    have hρ : ρ ≠ 0 := hn.ne'
-    have hexp : c.sqDist center = (c.x - center.x) * (c.x - center.x) + (c.y - center.y) * (c.y - center.y) := rfl
+    change 0 < (c.sub center).norm E at hn
+    change 1 / (c.sub center).norm E * (c.sub center).norm E = 1 at hun
+    change 1 / (c.sub center).norm E * (1 / (c.sub center).norm E) * c.sqDist center = 1 at huu
+    have hiz : ¬ (isZero ((c.sub center).norm E) = true) := by
+      rw [Bool.not_eq_true]; exact (isZero_false_iff _).mpr hn.ne'
+    have ho : circleOut E center r c = ⟨circleSDF E center r c, (c.sub center).scale (1 / (c.sub center).norm E),
+        center.add ((c.sub center).scale (r / (c.sub center).norm E))⟩ := by
+      unfold circleOut; rw [if_neg hiz]
+    have hval : circleSDF E center r c = r - (c.sub center).norm E := rfl
+    rw [ho, hval]
+    generalize (c.sub center).norm E = ρ at *
+    have hdiv : r / ρ = r * (1 / ρ) := by ring
+    rw [hdiv]
+    generalize 1 / ρ = u at *
+    rw [hexp] at huu hsq
     refine ⟨rfl, ?_, ?_, ?_, ?_⟩
     · simp only [V2.normSq, V2.scale, V2.sub]
-      rw [hexp] at huu; linear_combination huu
-    · ext <;> simp only [V2.add, V2.scale, V2.sub] <;> field_simp
-    · ext <;> simp only [V2.scale, V2.sub] <;> field_simp
+      linear_combination huu
+    · ext <;> simp only [V2.add, V2.scale, V2.sub] <;> ring
+    · ext <;> simp only [V2.scale, V2.sub] <;>
+        first
+        | linear_combination (-(c.x - center.x)) * hun
+        | linear_combination (-(c.y - center.y)) * hun
     · simp only [V2.sqDist, V2.add, V2.scale, V2.sub]
-      rw [hexp] at hsq
-      field_simp
-      linear_combination (ρ - r) * (ρ - r) * hsq
+      have key : (1 - r * u) * ρ = ρ - r := by linear_combination (-r) * hun
+      have : ((c.x - center.x) * (c.x - center.x) + (c.y - center.y) * (c.y - center.y)) * ((1 - r * u) * (1 - r * u)) = (r - ρ) * (r - ρ) := by
+        rw [← hsq]; linear_combination (ρ - r + (1 - r * u) * ρ) * key
+      linear_combination this
+
+
+/-! ## `safeNormal` -/
+
+/-- facts about `v / ‖v‖` for `v ≠ 0` -/
+theorem V3.normalized_spec {E : Env K} (hE : E.Exact) (d : V3 K) (hd : 0 < d.normSq) :
+    0 < d.norm E ∧ d.norm E * d.norm E = d.normSq ∧ (d.scale (1 / d.norm E)).normSq = 1 ∧
+      d = (d.scale (1 / d.norm E)).scale (d.norm E) := by
+  obtain ⟨hn, hu, hun, huu⟩ := inv_norm_facts hE hd
+  have hsq : d.norm E * d.norm E = d.normSq := hE.sqrt_sq _ hd.le
+  change 0 < d.norm E at hn
+  change 1 / d.norm E * d.norm E = 1 at hun
+  change 1 / d.norm E * (1 / d.norm E) * d.normSq = 1 at huu
+  refine ⟨hn, hsq, ?_, ?_⟩
+  · simp only [V3.normSq, V3.scale] at huu ⊢; linear_combination huu
+  · generalize d.norm E = ρ at *
+    generalize 1 / ρ = u at *
+    ext <;> simp only [V3.scale]
+    · linear_combination (-d.x) * hun
+    · linear_combination (-d.y) * hun
+    · linear_combination (-d.z) * hun
+
+theorem V2.normalized_spec {E : Env K} (hE : E.Exact) (d : V2 K) (hd : 0 < d.normSq) :
+    0 < d.norm E ∧ d.norm E * d.norm E = d.normSq ∧ (d.scale (1 / d.norm E)).normSq = 1 ∧
+      d = (d.scale (1 / d.norm E)).scale (d.norm E) := by
+  obtain ⟨hn, hu, hun, huu⟩ := inv_norm_facts hE hd
+  have hsq : d.norm E * d.norm E = d.normSq := hE.sqrt_sq _ hd.le
+  change 0 < d.norm E at hn
+  change 1 / d.norm E * d.norm E = 1 at hun
+  change 1 / d.norm E * (1 / d.norm E) * d.normSq = 1 at huu
+  refine ⟨hn, hsq, ?_, ?_⟩
+  · simp only [V2.normSq, V2.scale] at huu ⊢; linear_combination huu
+  · generalize d.norm E = ρ at *
+    generalize 1 / ρ = u at *
+    ext <;> simp only [V2.scale]
+    · linear_combination (-d.x) * hun
+    · linear_combination (-d.y) * hun
+
+/-- `safeNormal(direction, fallback, invalid)` is `direction / ‖direction‖` whenever `direction ≠ 0` is
+already orthogonal to `invalid` (which is what the callers arrange in exact arithmetic): projecting out
+changes nothing and the norm test `< 1e-5` fails. -/
+theorem safeNormal3_of_orth {E : Env K} (hE : E.Exact) (d fb inv : V3 K) (hd : 0 < d.normSq)
+    (horth : inv.dot d = 0) : safeNormal3 E d fb inv = d.scale (1 / d.norm E) := by
+  obtain ⟨hn, hsq, hunit, _⟩ := V3.normalized_spec hE d hd
+  have hiz : ¬ (isZero (d.norm E) = true) := by
+    rw [Bool.not_eq_true]; exact (isZero_false_iff _).mpr hn.ne'
+  have hproj : (d.scale (1 / d.norm E)).projectOut E inv = d.scale (1 / d.norm E) := by
+    simp only [V3.projectOut, V3.normalize]
+    have : (inv.scale (1 / inv.norm E)).dot (d.scale (1 / d.norm E)) = 0 := by
+      have : (inv.scale (1 / inv.norm E)).dot (d.scale (1 / d.norm E))
+          = (1 / inv.norm E) * (1 / d.norm E) * inv.dot d := by
+        simp only [V3.dot, V3.scale]; ring
+      rw [this, horth, mul_zero]
+    rw [this]
+    ext <;> simp [V3.sub, V3.scale]
+  have hn2 : (d.scale (1 / d.norm E)).norm E = 1 := by
+    show E.sqrt (d.scale (1 / d.norm E)).normSq = 1
+    rw [hunit]; exact hE.sqrt_one
+  unfold safeNormal3
+  rw [if_neg hiz]
+  simp only [hproj, hn2]
+  rw [if_neg (not_lt.mpr hE.eps_lt.le)]
+  ext <;> simp [V3.scale]
+
+theorem safeNormal2_of_orth {E : Env K} (hE : E.Exact) (d fb inv : V2 K) (hd : 0 < d.normSq)
+    (horth : inv.dot d = 0) : safeNormal2 E d fb inv = d.scale (1 / d.norm E) := by
+  obtain ⟨hn, hsq, hunit, _⟩ := V2.normalized_spec hE d hd
+  have hiz : ¬ (isZero (d.norm E) = true) := by
+    rw [Bool.not_eq_true]; exact (isZero_false_iff _).mpr hn.ne'
+  have hproj : (d.scale (1 / d.norm E)).projectOut E inv = d.scale (1 / d.norm E) := by
+    simp only [V2.projectOut, V2.normalize]
+    have : (inv.scale (1 / inv.norm E)).dot (d.scale (1 / d.norm E)) = 0 := by
+      have : (inv.scale (1 / inv.norm E)).dot (d.scale (1 / d.norm E))
+          = (1 / inv.norm E) * (1 / d.norm E) * inv.dot d := by
+        simp only [V2.dot, V2.scale]; ring
+      rw [this, horth, mul_zero]
+    rw [this]
+    ext <;> simp [V2.sub, V2.scale]
+  have hn2 : (d.scale (1 / d.norm E)).norm E = 1 := by
+    show E.sqrt (d.scale (1 / d.norm E)).normSq = 1
+    rw [hunit]; exact hE.sqrt_one
+  unfold safeNormal2
+  rw [if_neg hiz]
+  simp only [hproj, hn2]
+  rw [if_neg (not_lt.mpr hE.eps_lt.le)]
+  ext <;> simp [V2.scale]
+
+/-- `safeNormal` of the zero vector is the fallback. -/
+theorem safeNormal3_zero {E : Env K} (hE : E.Exact) (d fb inv : V3 K) (hd : d.normSq = 0) :
+    safeNormal3 E d fb inv = fb := by
+  have : d.norm E = 0 := by show E.sqrt d.normSq = 0; rw [hd]; exact hE.sqrt_zero
+  unfold safeNormal3
+  rw [if_pos ((isZero_iff _).mpr this)]
+
+theorem safeNormal2_zero {E : Env K} (hE : E.Exact) (d fb inv : V2 K) (hd : d.normSq = 0) :
+    safeNormal2 E d fb inv = fb := by
+  have : d.norm E = 0 := by show E.sqrt d.normSq = 0; rw [hd]; exact hE.sqrt_zero
+  unfold safeNormal2
+  rw [if_pos ((isZero_iff _).mpr this)]
 
 end M3d.Sdf
